@@ -84,7 +84,7 @@ func genTopo(tp *simkit.Tape, small bool) topo {
 	procPool := []string{"proc/1", "proc/2", "ropr/1"}
 	expPool := []string{"exp/1", "exp/2", "mexp/1", "exp/x", "exp/X"}
 	connPool := []string{"fwd/1", "conv/1", "conv/2", "l2m/1", "forward/1", "asym/1", "rnd/1", "rnd/2", "rt/1", "rt/1"}
-	rtMode = tp.Draw(7)
+	rtMode = tp.Draw(10) // 7: varies per payload
 	// the support matrix of connector type "rnd" in this run: every cell drawn on its own (about 2 in 3 supported)
 	bits := tp.Draw(1 << 16)
 	bits2 := tp.Draw(1 << 16)
@@ -93,6 +93,32 @@ func genTopo(tp *simkit.Tape, small bool) topo {
 			k := uint(i*4 + j)
 			rndMatrix[i][j] = bits>>k&1 == 1 || bits2>>k&1 == 1 && k%2 == 0
 		}
+	}
+	if !small && tp.Chance(1, 10) {
+		// router-focused topology: one source pipeline feeds a routing connector, which picks among 2-4 pipelines of the
+		// same signal - a different selection for every payload (mode 7), several payloads per run. Pipeline names may
+		// contain "/" ("a", "b" and "a/b" are three pipelines).
+		sig := drawSignal(tp)
+		rtMode = 7
+		src := pipeCfg{Name: sig + "/src", Sig: sig, Recv: pick(tp, recvPool[:2], tp.Range(1, 2)), Proc: pick(tp, procPool, tp.Draw(2)), Exp: []string{"rt/1"}}
+		if tp.Chance(1, 3) {
+			src.Exp = append(src.Exp, "exp/1")
+		}
+		t.Pipes = append(t.Pipes, src)
+		for _, nm := range pick(tp, []string{"a", "b", "a/b", "b/a", "a/b/c", "c", "a/b"}, tp.Range(2, 5)) {
+			t.Pipes = append(t.Pipes, pipeCfg{Name: sig + "/" + nm, Sig: sig, Recv: []string{"rt/1"}, Proc: pick(tp, procPool, tp.Draw(3)), Exp: pick(tp, expPool, tp.Range(1, 2))})
+		}
+		if tp.Chance(1, 3) {
+			// and a pipeline of another signal under one of the names in use
+			other := drawSignal(tp)
+			if other != sig {
+				t.Pipes = append(t.Pipes, pipeCfg{Name: other + "/a", Sig: other, Recv: []string{"rcv/2"}, Exp: []string{"exp/2"}})
+			}
+		}
+		t.RtMode = rtMode
+		t.Rnd = "(unused)"
+		t.Invalid = t.validate()
+		return t
 	}
 	useConn := tp.Chance(2, 3)
 	names := "abcde"
@@ -265,7 +291,7 @@ func (t *topo) validate() string {
 
 // routes computes, for a payload injected at receiver recv on signal sig, the expected (exporter key, trail)
 // multiset by walking the configuration (independent of the graph package).
-func (t *topo) routes(recv, sig string) []delivery {
+func (t *topo) routes(recv, sig, id string) []delivery {
 	var out []delivery
 	var walk func(p pipeCfg, trail string)
 	walk = func(p pipeCfg, trail string) {
@@ -294,7 +320,7 @@ func (t *topo) routes(recv, sig string) []delivery {
 						}
 					}
 					sort.Slice(att, func(i, j int) bool { return att[i].Name < att[j].Name })
-					for _, grp := range routeSelection(rtMode, len(att)) {
+					for _, grp := range routeSelection(rtEffective(rtMode, id), len(att)) {
 						for _, k := range grp {
 							walk(att[k], trail+">"+e+"["+p.Sig+"->"+to+"]")
 						}
@@ -549,6 +575,11 @@ func runRouting(r *simkit.Run, prop string) {
 	}
 	sort.Slice(injs, func(i, j int) bool { return injs[i].recv+injs[i].sig < injs[j].recv+injs[j].sig })
 	n := 0
+	if t.RtMode == 7 {
+		// the routing connector's selection depends on the payload: four rounds of injections
+		injs = append(append(append(append([]inj(nil), injs...), injs...), injs...), injs...)
+		r.Count("probe.routing_selection_varies_per_payload")
+	}
 	for _, in := range injs {
 		if r.Failed() {
 			break
@@ -589,7 +620,7 @@ func runRouting(r *simkit.Run, prop string) {
 			gotD = append(gotD, d.Comp+" via "+d.Trail)
 		}
 		var wantD []string
-		for _, d := range t.routes(in.recv, in.sig) {
+		for _, d := range t.routes(in.recv, in.sig, id) {
 			wantD = append(wantD, d.Comp+" via "+d.Trail)
 		}
 		sort.Strings(gotD)
@@ -631,7 +662,7 @@ var svcStub = []string{"leaf components: instrumented stub receivers, processors
 
 var HarnessC09 = simkit.Harness{
 	Prop: "C09", Name: "svc/c09", Run: runC09, StepTimeout: 20e9, Real: svcReal, Stub: svcStub, HashInsensitive: true,
-	Rule: "one run = one generated service configuration (1-5 pipelines over 4 signals incl. profiles, shared and signal-sharing receivers, 0-3 processors, 1-2 exporters, up to 3 connector wirings of five connector types (the real forward connector among them) incl. unsupported pairs, dangling usage and cycles) built and started by the real service; one tagged payload is injected at every (receiver, signal) and the deliveries (exporter, processor/connector trail) are compared with an independent reachability walk of the configuration; invalid configurations must be rejected with nothing started; distinct = distinct event-log hash; non-trivial = a payload with >1 expected delivery or an invalid topology. Limit: the schedule/fault dimension adds little to this property; the deciding content is the seeded topology search through the real build and runtime",
+	Rule: "one run = one generated service configuration (1-5 pipelines over 4 signals incl. profiles, shared and signal-sharing receivers, 0-3 processors, 1-2 exporters, up to 3 connector wirings of connector types incl. the real forward connector and a routing connector that selects destinations through the router API (ten selection modes, one of them a different selection for every payload), incl. unsupported pairs, dangling usage and cycles; 1 run in 10 is a router-focused topology: one source pipeline, a routing connector, 2-5 pipelines of the same signal whose names may contain '/' ('a', 'b' and 'a/b' are three pipelines), four rounds of payloads) built and started by the real service; one tagged payload is injected at every (receiver, signal) and the deliveries (exporter, processor/connector trail) are compared with an independent reachability walk of the configuration; invalid configurations must be rejected with nothing started; distinct = distinct event-log hash; non-trivial = a payload with >1 expected delivery or an invalid topology. Limit: the schedule/fault dimension adds little to this property; the deciding content is the seeded topology search through the real build and runtime",
 }
 
 // ---- C10 ----------------------------------------------------------------------------------------------------
